@@ -143,6 +143,7 @@ func NewEnv(cfg Cfg) (*Env, error) {
 		"CREATE TABLE ledger (id INTEGER PRIMARY KEY, k INTEGER)",
 		"INSERT INTO ledger VALUES (1, 0)",
 		"CREATE TABLE t0 (id INTEGER PRIMARY KEY, a INTEGER, v BLOB)",
+		"CREATE INDEX i0 ON t0 (a)", // an index that was never analyzed: anything that runs ANALYZE / PRAGMA optimize on the application's database shows up as sqlite_stat tables
 	} {
 		if _, err := e.App.Exec(q); err != nil {
 			e.Destroy()
